@@ -551,9 +551,174 @@ func TestC08(t *testing.T) {
 		}
 		run.Count("time_ms/finish", int(time.Since(tFin).Milliseconds()))
 	}
+	restore() // directed scenarios install their own marker handler
+	c08directed(ctx, run, rng.Split("directed"), base, pool)
+	restore = verifhook.Set(c08hook())
+	run.Require("directed/scenarios", 10)
 	run.Require("reads_verified", 500)
 	run.Require("porcupine/ok", 20)
 	run.Require("fd_checks", 10)
 	run.Assume("the accessor cache's bounded forced close (1 minute) is not reached: no reader holds an accessor while calling other store operations")
 	run.Assume("heights use distinct squares (distinct data hashes), so per-height histories are independent")
+}
+
+
+// c08directed forces the window "a removal is waiting for a reader of the cached accessor" (marker
+// cache.accessor.close.waiting) and lets other operations come and go inside it; the same oracles
+// apply: every read correct, everything returns, final content = some sequential order, no fd left.
+func c08directed(ctx context.Context, run *vkit.Run, r *vkit.RNG, base string, pool []*vkit.Square) {
+	type variant struct {
+		recent, serving int
+		remover         string
+		holdVia         string // where reader 1 gets its accessor
+		middle          []string
+	}
+	var vs []variant
+	for _, recent := range []int{0, 1} {
+		for _, serving := range []int{1, 4} {
+			for _, remover := range []string{"rm-odsq4", "rm-q4"} {
+				for _, holdVia := range []string{"cached", "store"} {
+					for _, middle := range [][]string{{"cached-get"}, {"get"}, {"cached-get", "cached-get"}, {"has", "cached-get", "get"}, {"put-odsq4"}} {
+						vs = append(vs, variant{recent, serving, remover, holdVia, middle})
+					}
+				}
+			}
+		}
+	}
+	if !vkit.Thorough() {
+		r.Shuffle(len(vs), func(i, j int) { vs[i], vs[j] = vs[j], vs[i] })
+		vs = vs[:40]
+	}
+	for i, v := range vs {
+		dir := filepath.Join(base, fmt.Sprintf("d%d", i))
+		_ = os.MkdirAll(dir, 0o755)
+		s, err := store.NewStore(&store.Parameters{RecentBlocksCacheSize: v.recent}, dir)
+		if err != nil {
+			run.Inconclusive("directed: " + err.Error())
+			return
+		}
+		cs, err := s.WithCache("serving", v.serving)
+		if err != nil {
+			run.Inconclusive("directed: " + err.Error())
+			return
+		}
+		sq := pool[r.Intn(len(pool))]
+		h := uint64(40 + r.Intn(100))
+		hst := &c08hist{id: 100000 + i, dir: dir, s: s, cs: cs, clock: &atomic.Int64{}, run: run, heights: []uint64{h}, squares: []*vkit.Square{sq}}
+		hst.desc = fmt.Sprintf("directed#%d recent=%d serving=%d remover=%s reader1-via=%s middle=%v height=%d %s", i, v.recent, v.serving, v.remover, v.holdVia, v.middle, h, sq.Desc())
+		run.Eval(1)
+		run.Count("directed/scenarios", 1)
+		if i%8 == 0 {
+			run.Sample(map[string]any{"directed": hst.desc})
+		}
+		rec := func(kind string, f func() error) {
+			ev := c08event{g: 0, kind: kind, h: 0, call: hst.clock.Add(1)}
+			if err := f(); err != nil && !errors.Is(err, store.ErrNotFound) {
+				ev.err = err.Error()
+				run.Violation("C08 "+kind+" fails under concurrency", map[string]any{"history": hst.desc, "err": err.Error()})
+			}
+			ev.ret = hst.clock.Add(1)
+			hst.record(ev)
+		}
+		rec("put-odsq4", func() error { return s.PutODSQ4(ctx, sq.Roots, h, sq.EDS) })
+		// push the block out of the recent cache so that accessors are file-backed
+		if v.recent > 0 {
+			o := pool[(r.Intn(len(pool)-1)+1)%len(pool)]
+			_ = s.PutODSQ4(ctx, o.Roots, h+1, o.EDS)
+			_ = s.RemoveODSQ4(ctx, h+1, o.Roots.Hash())
+		}
+		var r1 eds.AccessorStreamer
+		if v.holdVia == "cached" {
+			r1, err = cs.GetByHeight(ctx, h)
+		} else {
+			r1, err = s.GetByHeight(ctx, h)
+		}
+		if err != nil {
+			run.Violation("C08 get of a stored block fails", map[string]any{"history": hst.desc, "err": err.Error()})
+			_ = s.Stop(ctx)
+			continue
+		}
+		waiting := make(chan struct{}, 4)
+		restore := verifhook.Set(&verifhook.Handler{Point: func(name string, _ any) {
+			if name == "cache.accessor.close.waiting" {
+				select {
+				case waiting <- struct{}{}:
+				default:
+				}
+			}
+		}})
+		removed := make(chan struct{})
+		go func() {
+			defer close(removed)
+			rec(v.remover, func() error {
+				if v.remover == "rm-q4" {
+					return s.RemoveQ4(ctx, h, sq.Roots.Hash())
+				}
+				return s.RemoveODSQ4(ctx, h, sq.Roots.Hash())
+			})
+		}()
+		// wait until the removal waits for reader 1 (or finished: nothing cached to wait for)
+		inWindow := false
+		select {
+		case <-waiting:
+			inWindow = true
+			run.Count("directed/window_reached", 1)
+		case <-removed:
+		}
+		if inWindow {
+			var mw sync.WaitGroup
+			for k, m := range v.middle {
+				switch m {
+				case "cached-get", "get":
+					// must not block behind the removal for ever; run asynchronously and join at the end
+					mw.Add(1)
+					go func(k int, m string) {
+						defer mw.Done()
+						var acc eds.AccessorStreamer
+						var err error
+						if m == "cached-get" {
+							acc, err = cs.GetByHeight(ctx, h)
+						} else {
+							acc, err = s.GetByHeight(ctx, h)
+						}
+						if err == nil {
+							hst.useAccessor(ctx, r.SplitN("mid", k), acc, 0, "GetByHeight during a removal", 3, false)
+						}
+					}(k, m)
+				case "has":
+					mw.Add(1)
+					go func() { defer mw.Done(); _, _ = s.HasByHeight(ctx, h) }()
+				case "put-odsq4":
+					mw.Add(1)
+					go func() {
+						defer mw.Done()
+						rec("put-odsq4", func() error { return s.PutODSQ4(ctx, sq.Roots, h, sq.EDS) })
+					}()
+				}
+			}
+			// give the middle operations the chance to run inside the window: they either finish or block
+			// behind the store lock held by the removal (then they complete after it)
+			for y := 0; y < 200; y++ {
+				runtime.Gosched()
+			}
+			time.Sleep(2 * time.Millisecond)
+			hst.useAccessor(ctx, r.Split("r1"), r1, 0, "accessor held across a removal", 4, false)
+			done := make(chan struct{})
+			go func() { mw.Wait(); <-removed; close(done) }()
+			if vd, dump := vkit.WaitStable(done, vkit.StableOpts{Polls: 25, MaxWait: 3 * time.Minute}); vd != "done" {
+				restore()
+				if vd == "hang" {
+					run.Violation("C08 store operations never return: "+strings.Join(vkit.RepoFrames(dump), " | "), map[string]any{"history": hst.desc, "dump": tailStr(dump, 5000)})
+				} else {
+					run.Inconclusive("directed scenario did not finish")
+				}
+				return
+			}
+		} else {
+			_ = r1.Close()
+		}
+		restore()
+		hst.finish(ctx, r.SplitN("dfin", i))
+		_ = os.RemoveAll(dir)
+	}
 }
